@@ -61,8 +61,17 @@ def lib(fn, *args, **kwargs):
     faults (exceptions whose innermost frame is in /verif code)."""
     try:
         return Ok(fn(*args, **kwargs))
-    except (KeyboardInterrupt, SystemExit, MemoryError):
+    except (KeyboardInterrupt, SystemExit):
         raise
+    except MemoryError as e:
+        # workers run under an address-space limit: a library call that blows it up on the
+        # small inputs generated here is reported as an outcome of the call, not as a crash
+        import gc
+
+        gc.collect()
+        r = Raised(e)
+        r.text = "MemoryError: library call exceeded the worker's memory limit"
+        return r
     except HarnessError:
         raise
     except Violation:
@@ -264,6 +273,13 @@ def worker_main(argv):
     import importlib
 
     prop, tier, seed, worker, nworkers, outdir = argv[:6]
+    try:
+        import resource
+
+        lim = int(float(os.environ.get("CGV_MEM_GB", "3")) * (1 << 30))
+        resource.setrlimit(resource.RLIMIT_AS, (lim, lim))
+    except Exception:  # noqa: BLE001
+        pass
     seed = int(seed)
     worker = int(worker)
     nworkers = int(nworkers)
